@@ -21,6 +21,7 @@ import (
 	treetypes "github.com/agglayer/aggkit/tree/types"
 	signertypes "github.com/agglayer/go_signer/signer/types"
 	"github.com/ethereum/go-ethereum/common"
+	"github.com/ethereum/go-ethereum/crypto"
 )
 
 // The status ticker of the send loop: harness/REWRITES.json replaces the loop's time.NewTicker call by zzNewTicker (on the
@@ -33,6 +34,7 @@ func zzNewTicker(d time.Duration) *time.Ticker { return &time.Ticker{C: zzTickCh
 // `mask` is set; the bridge's destination network is its block number (a tag to recognise it in a certificate); the exit root
 // after each deposit is a fresh symbolic hash. With `grow`, one more block becomes visible at every poll of the last block.
 type zzC02L2 struct {
+	claims  []bridgesync.Claim
 	bridges []bridgesync.Bridge
 	roots   []common.Hash
 	last    uint64
@@ -51,7 +53,13 @@ func (l *zzC02L2) GetBridgesAndClaims(ctx context.Context, from, to uint64) ([]b
 			bs = append(bs, b)
 		}
 	}
-	return bs, nil, nil
+	var cs []bridgesync.Claim
+	for _, c := range l.claims {
+		if c.BlockNum >= from && c.BlockNum <= to {
+			cs = append(cs, c)
+		}
+	}
+	return bs, cs, nil
 }
 func (l *zzC02L2) GetExitRootByIndex(ctx context.Context, index uint32) (common.Hash, error) {
 	if int(index) >= len(l.roots) {
@@ -88,7 +96,7 @@ func (zzC02L1Info) GetFinalizedL1InfoTreeData(ctx context.Context) (treetypes.Pr
 	return treetypes.Proof{}, nil, nil, errors.New("unused")
 }
 func (zzC02L1Info) GetProofForGER(ctx context.Context, ger, root common.Hash) (*l1infotreesync.L1InfoTreeLeaf, treetypes.Proof, error) {
-	return nil, treetypes.Proof{}, errors.New("unused")
+	return &l1infotreesync.L1InfoTreeLeaf{GlobalExitRoot: ger, L1InfoTreeIndex: 3}, treetypes.Proof{}, nil
 }
 func (zzC02L1Info) CheckIfClaimsArePartOfFinalizedL1InfoTree(r *treetypes.Root, claims []bridgesync.Claim) error {
 	return nil
@@ -178,7 +186,15 @@ func (a *zzC02Agglayer) SendCertificate(ctx context.Context, c *agglayertypes.Ce
 			k++
 		}
 	}
-	zzverif.Assert("no other exit", len(c.BridgeExits) == k && len(c.ImportedBridgeExits) == 0)
+	zzverif.Assert("no other exit", len(c.BridgeExits) == k)
+	k = 0
+	for _, cl := range a.l2.claims {
+		if cl.BlockNum >= from && cl.BlockNum <= to {
+			zzverif.Assert("imported exit k is the k-th claim of the range", k < len(c.ImportedBridgeExits) && c.ImportedBridgeExits[k].BridgeExit.DestinationNetwork == cl.DestinationNetwork)
+			k++
+		}
+	}
+	zzverif.Assert("no other imported exit", len(c.ImportedBridgeExits) == k)
 	id := common.Hash(zzverif.Hash("certID"))
 	for _, x := range a.certs {
 		zzverif.Assume(x.id != id)
@@ -259,7 +275,7 @@ func (f *zzC02Feeder) CheckInitialStatus(ctx context.Context, d time.Duration, s
 
 // ZZVerif_C02_Loop runs the real send loop for K events (epoch or status tick, in any order) against the real storage, the real
 // status checker and the real PP flow, with a model Agglayer that decides the open certificate at arbitrary polls and an L2 of
-// NBLK blocks. Every submission is judged by the model Agglayer; at the end the settled certificates are read in height order.
+// NBLK blocks (bridges per MASK, claims per CMASK; MAXSIZE > 0 limits the certificate size so that ranges get cut). Every submission is judged by the model Agglayer; at the end the settled certificates are read in height order.
 func ZZVerif_C02_Loop() {
 	k := zzverif.Param("K")
 	nblk := zzverif.Param("NBLK")
@@ -283,6 +299,16 @@ func ZZVerif_C02_Loop() {
 			l2.roots = append(l2.roots, zzverif.Hash("exitRoot"))
 		}
 	}
+	// claims: block i holds one claim iff bit i-1 of CMASK is set (tagged by its destination network)
+	cmask := zzverif.Param("CMASK")
+	for i := 1; i <= nblk; i++ {
+		if cmask>>(i-1)&1 == 1 {
+			var zero common.Hash
+			l2.claims = append(l2.claims, bridgesync.Claim{BlockNum: uint64(i), BlockPos: 1, GlobalIndex: bridgesync.GenerateGlobalIndex(false, 1, uint32(i)),
+				OriginNetwork: net, DestinationNetwork: uint32(1000 + i), Amount: big.NewInt(int64(i)),
+				GlobalExitRoot: crypto.Keccak256Hash(zero[:], zero[:])})
+		}
+	}
 	st, err := aggsenderdb.NewAggSenderSQLStorage(logger, aggsenderdb.AggSenderSQLStorageConfig{DBPath: zzverif.TempDB("aggsender")})
 	if err != nil {
 		zzverif.Assert("storage opens", false)
@@ -290,7 +316,7 @@ func ZZVerif_C02_Loop() {
 	}
 	ag := &zzC02Agglayer{faults: faults, startLER: startLER, l2: l2}
 	l1 := zzC02L1Info{root: zzverif.Hash("l1InfoRoot")}
-	base := flows.NewBaseFlow(logger, l2, st, l1, &zzC02LER{ler: startLER}, flows.NewBaseFlowConfigDefault())
+	base := flows.NewBaseFlow(logger, l2, st, l1, &zzC02LER{ler: startLER}, flows.NewBaseFlowConfig(uint(zzverif.Param("MAXSIZE")), 0, false))
 	pp := flows.NewPPFlow(logger, base, st, l1, l2, zzC02Signer{}, false, 0)
 	zzTickCh = make(chan time.Time, 1)
 	epochCh := make(chan types.EpochEvent, 1)
